@@ -85,15 +85,17 @@ def run(res, ctx, rng, st):
             st["cli-multi-file-runs:" + kind] += 1
             if one[0] == 0:
                 st["cli-multi-file-ok"] += 1
-            if (one[0], one[1]) != (many[0], many[1]):
+            # the Affiliate column shows the first spelling of a name that the process met (" default " / "Default"):
+            # a display name, not a figure - compared up to letter case
+            if (one[0], one[1].lower()) != (many[0], many[1].lower()):
                 la, lb = one[1].split("\n"), many[1].split("\n")
-                first = next((i for i, (a, b) in enumerate(zip(la, lb)) if a != b), min(len(la), len(lb)))
+                first = next((i for i, (a, b) in enumerate(zip(la, lb)) if a.lower() != b.lower()), min(len(la), len(lb)))
                 res.violation("failing-input",
                               "acb %s prints a different report for the same rows given as one file (exit %d): line %d %r vs %r" % (
                                   " ".join(names), one[0], first + 1, (la[first] if first < len(la) else "")[:120],
                                   (lb[first] if first < len(lb) else "")[:120]),
                               {"input_one_file": core.to_csv(rows), "files": [[nm, core.to_csv(p)] for nm, p in zip(names, parts)],
-                               "args": args + names, "expected": one[1][-1500:], "actual_impl": many[1][-1500:],
+                               "args": args + names, "expected": one[1][-6000:], "actual_impl": many[1][-6000:],
                                "stderr": many[2][-400:]})
                 break
     finally:
